@@ -744,6 +744,16 @@ func (g *Gen) sObjOps() []Stmt {
 	switch g.n(12) {
 	case 0, 1, 2:
 		op := []string{"+", "-", "*", "/", "%", "//", "^", "&", "|", "~", "<<", ">>", ".."}[g.n(13)]
+		// mostly an operator whose metamethod the class defines
+		var defined []string
+		for _, ev := range o.cls.ops {
+			if sym, ok := opOfEvent[ev]; ok && ev != "__eq" && ev != "__lt" && ev != "__le" {
+				defined = append(defined, sym)
+			}
+		}
+		if len(defined) > 0 && !g.chance(4) {
+			op = defined[g.n(len(defined))]
+		}
 		r := g.fresh("r")
 		return []Stmt{Loc1(r, val(B(op, a, b))), Emit(CN("type", N(r)), B("and", B("==", CN("type", N(r)), S("table")), CN("rawget", N(r), S("v"))))}
 	case 3:
